@@ -1,4 +1,179 @@
-(* props/C03.v — theorem statements (being filled in). *)
-From Coq Require Import List NArith Bool.
+(* props/C03.v — C03: buffered calls are never lost.  ONLY theorem statements
+   about the executable model Buffer.v (the model the correspondence check runs
+   against /repo), each closed by a lemma of BufferCore.v / BufferFlag.v /
+   BufferOnce.v / BufferProgress.v, with Print Assumptions beneath, and
+   non-vacuity Examples at the end.
+
+   Vocabulary.  [trace T evs]: per external event, what the harness observes
+   (FnStart callno set tick / FnEnd callno ok set / WaitRet / DaemonEnded) when
+   the buffer has timeout T.  [final T evs]: the model state after the events.
+   [ok_sets tr]: the arguments of the calls of [tr] that returned without error
+   (the sets of the FnEnd _ true _ observations, concatenated).
+   Ghost history of a state s: [off (gh s)] = every argument handed to the buffer
+   so far, in order (characterised by handed_is_event_offers below);
+   [g_loaded (gh s)] = every argument added to an `inputs` set so far.
+   [cur_ins (dm s)] = the current round's `inputs` set — which is the running
+   call's set while a call runs; [pend (prods s)] = arguments sitting in a
+   producer the buffer holds (queued, being gathered, being loaded) and has not
+   iterated yet.  Event lists are arbitrary (all producer kinds, producer
+   failures at any position, any function outcomes, waits, shutdown, and the
+   foreign-thread halves of _put). *)
+From Coq Require Import List Arith NArith Bool.
 Import ListNotations.
-Require Import Aiuti.Buffer.
+Require Import Aiuti.Buffer Aiuti.BufferCore Aiuti.BufferFlag Aiuti.BufferJoin Aiuti.BufferQuiet
+               Aiuti.BufferOnce Aiuti.BufferProgress Aiuti.Case_Buffer.
+
+(* The function only ever receives arguments that were submitted: every element
+   of every set passed to the function in the macro step of event e was handed
+   to the buffer by an event of the history up to and including e — as an
+   immediate argument of a Submit / FPut (plain call, map()), or as the argument
+   of a scripted yield (PYield) of an awaitable / async-iterable producer. *)
+Theorem only_submitted :
+  forall (T : N) (pre : list event) (e : event) c set t x,
+    In (FnStart c set t) (snd (step (final T pre) e)) -> In x set ->
+    exists p e', In e' (pre ++ [e]) /\ ev_hands e' p x.
+Proof. exact only_submitted_lemma. Qed.
+Print Assumptions only_submitted.
+
+(* No loss (safety).  At every quiescent point of every history, as long as the
+   daemon lives: every argument handed to the buffer so far — including the
+   elements a producer yielded before it failed — is in a call that returned
+   without error, or is held in the round's input set (= the running call's
+   set), or is still pending in a producer the buffer holds. *)
+Theorem no_loss_inv :
+  forall (T : N) (evs : list event) (x : nat),
+    let s := final T evs in
+    is_dead s = false -> In x (off (gh s)) ->
+    In x (ok_sets (concat (trace T evs))) \/ In x (cur_ins (dm s)) \/ In x (pend (prods s)).
+Proof. exact no_loss_inv_lemma. Qed.
+Print Assumptions no_loss_inv.
+
+(* "Kept and offered again": an argument that has once been loaded into an input
+   set stays in the round's input set until a call containing it returns
+   without error (a failed call removes nothing; a producer failure removes
+   nothing). *)
+Theorem loaded_stays_held :
+  forall (T : N) (evs : list event) (x : nat),
+    let s := final T evs in
+    is_dead s = false -> In x (g_loaded (gh s)) ->
+    In x (ok_sets (concat (trace T evs))) \/ In x (cur_ins (dm s)).
+Proof. exact loaded_held_lemma. Qed.
+Print Assumptions loaded_stays_held.
+
+(* The ghost list "handed to the buffer" is exactly what the events say: the
+   immediate arguments of each accepted Submit / FPut (unused producer id, live
+   buffer) and the argument of each PYield that reached a producer that is
+   submitted and still open ([new_offers], BufferCore.v). *)
+Theorem handed_is_event_offers :
+  forall (T : N) (evs : list event), off (gh (final T evs)) = map snd (offers_from (init T) evs).
+Proof. exact handed_is_offers. Qed.
+Print Assumptions handed_is_event_offers.
+
+(* Exactly once from the loop's own thread.  In every history in which no
+   foreign event.clear() lands in the window between event.set() and the loop
+   test (no FnOkThenFClear; in particular in every own-thread history), no value
+   is passed to successful calls more often than it was handed over ... *)
+Theorem exactly_once_own_thread :
+  forall (T : N) (evs : list event),
+    ~ In FnOkThenFClear evs ->
+    forall x, count_occ Nat.eq_dec (ok_sets (concat (trace T evs))) x
+              <= count_occ Nat.eq_dec (off (gh (final T evs))) x.
+Proof. exact exactly_once_lemma. Qed.
+Print Assumptions exactly_once_own_thread.
+
+(* ... so distinct arguments are each in at most one successful call. *)
+Theorem exactly_once_distinct :
+  forall (T : N) (evs : list event),
+    ~ In FnOkThenFClear evs -> NoDup (off (gh (final T evs))) ->
+    NoDup (ok_sets (concat (trace T evs))).
+Proof. exact exactly_once_nodup. Qed.
+Print Assumptions exactly_once_distinct.
+
+(* Progress ("eventually").  From ANY reachable live state in which the daemon is
+   not parked on a slow producer and every queued producer has already ended or
+   failed (e.g. after the script closed the open producers), the continuation
+      FnOk ; Advance d (d >= timeout) ; FnOk
+   — the function succeeds for the running and the next call, a full timeout
+   passes, no new submission — delivers EVERY argument handed to the buffer so
+   far in a successful call, and leaves the buffer idle with an empty queue. *)
+Theorem no_loss_progress :
+  forall (T : N) (evs : list event) (d : N),
+    (T <= d)%N -> let s := final T evs in
+    is_dead s = false -> parked (dm s) = true -> all_fin (q s) ->
+    forall x, In x (off (gh s)) -> In x (ok_sets (concat (trace T (evs ++ tail d)))).
+Proof. exact no_loss_progress_lemma. Qed.
+Print Assumptions no_loss_progress.
+
+Theorem settles_idle :
+  forall (T : N) (evs : list event) (d : N),
+    (T <= d)%N -> let s := final T evs in
+    is_dead s = false -> parked (dm s) = true -> all_fin (q s) ->
+    let s' := final T (evs ++ tail d) in
+    dm s' = DIdle /\ q s' = [] /\ is_dead s' = false.
+Proof. exact settle_lemma. Qed.
+Print Assumptions settles_idle.
+
+(* With foreign-thread events in the history nothing above except exactly-once
+   needs a side condition: no_loss_inv, loaded_stays_held and no_loss_progress
+   quantify over ALL event lists.  Restated for histories that do contain
+   foreign events: at least once. *)
+Theorem foreign_at_least_once :
+  forall (T : N) (evs : list event) (d : N),
+    own_thread evs = false -> (T <= d)%N -> let s := final T evs in
+    is_dead s = false ->
+    (forall x, In x (off (gh s)) ->
+       In x (ok_sets (concat (trace T evs))) \/ In x (cur_ins (dm s)) \/ In x (pend (prods s))) /\
+    (parked (dm s) = true -> all_fin (q s) ->
+     forall x, In x (off (gh s)) -> In x (ok_sets (concat (trace T (evs ++ tail d))))).
+Proof. exact foreign_at_least_once_lemma. Qed.
+Print Assumptions foreign_at_least_once.
+
+(* ---- non-vacuity ------------------------------------------------------------------ *)
+
+(* ... and exactly-once is NOT claimed with foreign threads: a foreign clear inside
+   the set/test window makes the round go on with the same inputs, argument 1 is
+   passed to two successful calls (the legal duplicate) *)
+Example dup_foreign_example :
+  let evs := [Submit 0 (Plain 1); Advance 8; FnOkThenFClear; FPut 1 (Plain 2); Advance 8; FnOk] in
+  own_thread evs = false /\
+  concat (trace 8 evs) = [FnStart 0 [1] 8%N; FnEnd 0 true [1]; FnStart 1 [1; 2] 16%N; FnEnd 1 true [1; 2]] /\
+  ok_sets (concat (trace 8 evs)) = [1; 1; 2] /\ off (gh (final 8 evs)) = [1; 2].
+Proof. vm_compute. repeat split; reflexivity. Qed.
+
+(* a history with a failing call, a failing async producer whose prefix survives,
+   a submission under the running call: hypotheses of no_loss_inv hold with all
+   three disjuncts inhabited, and the progress continuation delivers everything *)
+Example no_loss_example :
+  let evs := [Submit 0 Async; PYield 0 1; Submit 1 (Plain 2); PYield 0 3; PFail 0; Advance 9;
+              Submit 2 (Plain 4); FnFail; Submit 3 Async; PYield 3 5] in
+  let s := final 8 evs in
+  is_dead s = false /\ off (gh s) = [1; 2; 3; 4; 5] /\
+  concat (trace 8 evs) = [FnStart 0 [1; 2; 3] 8%N; FnEnd 0 false [1; 2; 3]] /\
+  cur_ins (dm s) = [1; 2; 3; 4; 5] /\ parked (dm s) = false /\
+  let evs2 := evs ++ [PEnd 3] in
+  parked (dm (final 8 evs2)) = true /\ q (final 8 evs2) = [] /\
+  ok_sets (concat (trace 8 (evs2 ++ tail 8))) = [1; 2; 3; 4; 5].
+Proof. vm_compute. repeat split; reflexivity. Qed.
+
+(* pending disjunct: an argument yielded by a queued producer while a call runs *)
+Example pending_example :
+  let evs := [Submit 0 (Plain 1); Advance 8; Submit 1 Async; PYield 1 7] in
+  let s := final 8 evs in
+  off (gh s) = [1; 7] /\ cur_ins (dm s) = [1] /\ pend (prods s) = [7] /\ ok_sets (concat (trace 8 evs)) = [].
+Proof. vm_compute. repeat split; reflexivity. Qed.
+
+(* only_submitted: the offers of a concrete history *)
+Example offers_example :
+  offers_from (init 8) [Submit 0 (SyncIter [4; 5; 6] (Some 2)); Submit 1 Aw; PYield 1 9; PYield 1 10; PYield 7 11;
+                        Submit 0 (Plain 12)]
+  = [(0, 4); (0, 5); (1, 9)].
+Proof. vm_compute. reflexivity. Qed.
+
+(* exactly once: own-thread history with a retry *)
+Example once_example :
+  let evs := [Submit 0 (Plain 1); Advance 8; Submit 1 (Plain 2); FnFail; Advance 8; FnOk; Submit 2 (Plain 3); Advance 8; FnOk] in
+  ~ In FnOkThenFClear evs /\ NoDup (off (gh (final 8 evs))) /\ ok_sets (concat (trace 8 evs)) = [1; 2; 3].
+Proof.
+  vm_compute. split; [intros H; repeat (destruct H as [H|H]; [discriminate|]); exact H|].
+  split; [repeat constructor; simpl; intuition discriminate|reflexivity].
+Qed.
